@@ -22,6 +22,7 @@ import (
 
 	"github.com/anishathalye/porcupine"
 	"github.com/regclient/regclient"
+	"github.com/regclient/regclient/scheme/reg"
 	"github.com/regclient/regclient/types/errs"
 	"github.com/regclient/regclient/types/manifest"
 	"github.com/regclient/regclient/types/ref"
@@ -39,12 +40,26 @@ type backend struct {
 	Kind    string // reg-api reg-noapi layout layout-foreign
 	Page    int
 	Foreign string // how the foreign layout was written
+	Cache   bool   // the client keeps its response cache (as regctl and regsync do)
 	w       *modelreg.World
 	h       *modelreg.Host
 	dir     string
 }
 
-func (b *backend) key() string { return fmt.Sprintf("%s/page%d/%s", b.Kind, b.Page, b.Foreign) }
+func (b *backend) key() string {
+	k := fmt.Sprintf("%s/page%d/%s", b.Kind, b.Page, b.Foreign)
+	if b.Cache {
+		k += "/cache"
+	}
+	return k
+}
+
+func (b *backend) clientOpts() rcx.Opts {
+	if b.Cache {
+		return rcx.Opts{RegOpts: []reg.Opts{reg.WithCache(time.Minute, 200)}}
+	}
+	return rcx.Opts{}
+}
 
 func (b *backend) ref(tagOrDigest string) ref.Ref {
 	if b.dir != "" {
@@ -142,6 +157,7 @@ func newBackend(rng *rand.Rand, kind string, p *pool) *backend {
 		b.h.Cfg.TagDeleteAPI = kind == "reg-api"
 		b.Page = []int{0, 1, 2, 3}[rng.Intn(4)]
 		b.h.Cfg.TagPage = b.Page
+		b.Cache = rng.Intn(2) == 0
 	case "layout":
 		b.dir, _ = os.MkdirTemp(os.Getenv("VERIF_BIN"), "c06l")
 		_ = os.Remove(b.dir) // the client creates the layout itself
@@ -242,7 +258,7 @@ func sequential(i int) {
 	if b.h != nil {
 		hosts = append(hosts, b.h)
 	}
-	rc := rcx.New(hosts, rcx.Opts{})
+	rc := rcx.New(hosts, b.clientOpts())
 	ctx, cancel := context.WithTimeout(context.Background(), 60*time.Second)
 	defer cancel()
 	md := initModel(b, p)
@@ -521,7 +537,7 @@ func concurrent(i int) {
 			}
 		}
 	}
-	rc := rcx.New(hosts, rcx.Opts{})
+	rc := rcx.New(hosts, b.clientOpts())
 	ctx, cancel := context.WithTimeout(context.Background(), 60*time.Second)
 	defer cancel()
 	if b.dir != "" {
